@@ -163,10 +163,14 @@ func c13Gen(tier string, emit func(c13Case)) {
 	// nil handler, options after routes, empty caching router
 	for o := 0; o < 32; o++ {
 		emit(c13Case{Kind: "misc", Opts: o})
+		if o&8 != 0 {
+			emit(c13Case{Kind: "misc", Opts: o | 32})
+			emit(c13Case{Kind: "misc", Opts: o | 64})
+		}
 	}
 	// structured patterns
 	for _, it := range c13Structured() {
-		for _, o := range []int{0, 31, 8, 23} {
+		for _, o := range []int{0, 31, 8, 23, 8 | 32, 31 | 64} {
 			emit(c13Case{Kind: "pattern", Pattern: it.pat, Reject: it.reject, Paths: it.paths, Opts: o})
 		}
 	}
@@ -194,7 +198,14 @@ func c13Options(o int) []func(*rux.Router) {
 		opts = append(opts, rux.StrictLastSlash)
 	}
 	if o&8 != 0 {
-		opts = append(opts, rux.CachingWithNum(2))
+		// bit 5 / bit 6 select the boundary capacities 0 and 1 instead of 2
+		capacity := 2
+		if o&32 != 0 {
+			capacity = 0
+		} else if o&64 != 0 {
+			capacity = 1
+		}
+		opts = append(opts, rux.CachingWithNum(uint16(capacity)))
 	}
 	if o&16 != 0 {
 		opts = append(opts, rux.UseEncodedPath)
@@ -444,6 +455,13 @@ func c13Run(c c13Case, st *fw.Stats) []fw.Viol {
 						rc.GET(cur, c13Noop)
 					}); pv2 == nil {
 						look(rc, what+" (all options on, cache 2)")
+					}
+					// ... and with a cache that can hold nothing
+					if pv3 := try(func() {
+						rc = rux.New(c13Options(8 | 32)...)
+						rc.GET(cur, c13Noop)
+					}); pv3 == nil {
+						c13LightLookups(rc, what+" (cache capacity 0)", st, add)
 					}
 				} else {
 					// static: one exact and a few near lookups
